@@ -8,7 +8,7 @@ PROFILE = {'name': 'c07', 'max_clients': 6, 'hostile_masks': False, 'cfg_variant
 def run(ctx):
     res = Result("C07")
     results, cover, shapes = common.e1_check(
-        ctx, res, PROFILE, n_quick=128, n_thorough=640, steps=160, steps_thorough=320,
+        ctx, res, PROFILE, n_quick=128, n_thorough=2560, steps=160, steps_thorough=320,
         relevant=lambda t: t[0] in ('join', 'create'),
         nontrivial_rule="founders drive channels through random subsets of +k/+l/+i and ban/exception/invite-exception lists built from masks near the candidates' identities, occupancy around the limit, max_joins in {none,1,2,3}, INVITEs; candidates JOIN single and comma lists with per-channel keys; distinct = truth vector (key ok, not banned, invite ok, below limit, below quota) x accepted/refused, decided by the reference glob")
     joins = sum(n for s, n in shapes.items() if s.startswith("join:"))
